@@ -31,6 +31,15 @@ Proof. reflexivity. Qed.
 Lemma eval_load t e l w : eval call (ELoad t e) l w =
   do vw <- eval call e l w; do b <- load_byte (snd vw) (fst vw); Fine (VInt (wrap t b), snd vw).
 Proof. reflexivity. Qed.
+Lemma eval_index a i l w : eval call (EIndex a i) l w =
+  do vw <- eval call a l w; do iw <- eval call i l (snd vw);
+  do bl <- get_vec (snd iw) (fst vw);
+  match fst iw with
+  | VInt n => if (0 <=? n) && (n <? Z.of_nat (List.length (snd bl))) then Fine (nth (Z.to_nat n) (snd bl) (VInt 0), snd iw)
+              else Stuck "array index outside the array"
+  | _ => Stuck "array index is not an integer"
+  end.
+Proof. reflexivity. Qed.
 Lemma eval_un o e l w : eval call (EUn o e) l w =
   do vw <- eval call e l w;
   match o, fst vw with
